@@ -184,8 +184,9 @@ package grpcgcp
 //@   ensures [C07.refresh-create] !old(ref.refreshing) ==> $newCalls == old($newCalls) + 1
 //@   ensures [C07.refresh-ok] !old(ref.refreshing) && $newFail == old($newFail) ==> ref.refreshing && len(gb.refreshingScRefs) == old(len(gb.refreshingScRefs)) + 1 && (forall sc balancer.SubConn :: sc in gb.refreshingScRefs && !old(sc in gb.refreshingScRefs) ==> gb.refreshingScRefs[sc] == ref && !old($created[sc]) && $addrs[sc] == gb.addrs && $connectRequested[sc])
 //@   ensures [C07.refresh-fail] $newFail != old($newFail) ==> !ref.refreshing && (forall sc balancer.SubConn :: (sc in gb.refreshingScRefs) == old(sc in gb.refreshingScRefs))
+//@   ensures [C07.refresh-fail-uncounted] $newFail != old($newFail) ==> ref.refreshCnt == old(ref.refreshCnt) && ref.lastResp == old(ref.lastResp) && ref.deCalls == old(ref.deCalls)
 //@ func (gb *gcpBalancer) getReadySubConnRef
-//@   ensures [C01.lookup-unbound] !old(boundKey in gb.affinityMap) ==> $ret0 == nil && !$ret1 && fbUnchanged(gb)
+//@   ensures [C01,C02 lookup-unbound] !old(boundKey in gb.affinityMap) ==> $ret0 == nil && !$ret1 && fbUnchanged(gb)
 //@   ensures [C01,C08 lookup-ready] old(homeReady(gb, boundKey)) ==> $ret1 && $ret0 == old(gb.scRefs[gb.affinityMap[boundKey]]) && $ret0 != nil && fbUnchanged(gb)
 //@   ensures [C01.lookup-wait] old(boundKey in gb.affinityMap) && !old(homeReady(gb, boundKey)) && !fallbackOn(gb) ==> $ret1 && $ret0 == nil && fbUnchanged(gb)
 //@   ensures [C08.sticky] old(boundKey in gb.affinityMap) && !old(homeReady(gb, boundKey)) && fallbackOn(gb) && old(boundKey in gb.fallbackMap) ==> $ret1 && $ret0 == old(gb.scRefs[gb.fallbackMap[boundKey]]) && $ret0 != nil && fbUnchanged(gb)
@@ -229,6 +230,10 @@ package grpcgcp
 //@   loop 1 invariant $newFail == old($newFail) && homeFrame(gb) && affUnchanged(gb) && fbUnchanged(gb)
 //@   loop 1 invariant forall sc in gb.scRefs :: !old(sc in gb.scRefs) ==> $addrs[sc] == gb.addrs && $connectRequested[sc]
 //@   loop 1 decreases minSizeOf(gb) - len(gb.scRefs)
+//@ func (*gcpBalancerBuilder) ParseConfig
+//@   callsite Unmarshal#1 asserts [C17.parse-input] len($arg0) == len(j) && (forall k, x in j :: $arg0[k] == x)
+//@   ensures [C17.parse-verdict] $ret1 == $call("Unmarshal#1")
+//@   ensures [C17.parse-object] $ret0 is *GCPBalancerConfig && $ret0.(*GCPBalancerConfig) != nil && fresh($ret0.(*GCPBalancerConfig)) && $ret0.(*GCPBalancerConfig).ApiConfig != nil && fresh($ret0.(*GCPBalancerConfig).ApiConfig)
 //@ func (gb *gcpBalancer) initializeConfig
 //@   locks held gb.mu
 //@   requires gb.cfg == nil && lockinv(gb.mu)
